@@ -8,6 +8,7 @@ package keystore
 
 import (
 	"fmt"
+	"runtime"
 	"sort"
 	"strings"
 	"sync"
@@ -322,7 +323,16 @@ func (c *wCtx) explore(depth int) seqx.Result {
 		InitKey: init.key() + " #fresh",
 		InitOps: c.enabledOps(init),
 		Stop:    c.r.Expired,
-		Try: func(hist []int, op int) (string, []int, bool) {
+		Try: func(hist []int, op int) (key string, ops []int, expand bool) {
+			defer func() {
+				if e := recover(); e != nil {
+					buf := make([]byte, 8192)
+					buf = buf[:runtime.Stack(buf, false)]
+					site := vk.PanicSite(string(buf))
+					c.viol("panic", site, fmt.Sprintf("panic: %v (%s)", e, site), c.histOps(hist, op))
+					key, ops, expand = "", nil, false
+				}
+			}()
 			in, m, res, ok := c.run(hist, op)
 			c.r.Eval(1)
 			if in == nil {
@@ -332,7 +342,7 @@ func (c *wCtx) explore(depth int) seqx.Result {
 			if !ok {
 				return "", nil, false
 			}
-			key := m.key() + " #" + in.hiddenFP()
+			key = m.key() + " #" + in.hiddenFP()
 			all := c.histOps(hist, op)
 			if c.tail != nil {
 				if !c.tail(c, in, m, all, res) {
